@@ -124,6 +124,16 @@ def canon_iter(t):
     return t
 
 
+def canon_closures(t):
+    """canon_iter also inside closure bodies (a loop element captured by a lazily evaluated closure, `x.unwrap_or_else(|| f(r))` in a loop over r,
+    is the same element as outside of it)"""
+    if not isinstance(t, tuple) or not t:
+        return t
+    if t[0] == "closure" and len(t) == 3:
+        return ("closure", t[1], canon_closures(canon_iter(t[2])))
+    return tuple(canon_closures(x) for x in t)
+
+
 class NF:
     def __init__(self):
         self.fresh = []   # (prefix, count term, taken-set term) of every choose_fresh_variable_names call met
